@@ -264,7 +264,17 @@ def length_writers(ctx, mf):
         goals.append(z3.Or([z3.And(p.pc) if p.pc else z3.BoolVal(True) for p in paths]))
         ctx.prove(f"c09_{fname}_refuses_oversize_and_writes_exact_prefix", [], z3.And(goals), inputs=[n],
                   functions=f"types::{fname} [scylla-cql/src/frame/types.rs]", bounds=f"all 2^64 usize lengths: Err iff > {maxv}, else the exact {width}-byte big-endian prefix",
-                  backend="BV", assumes=LIB, witness=False)
+                  backend="BV", assumes=LIB, witness=False, replay=lambda m, fname=fname, width=width, maxv=maxv: replay_length(m, fname, width, maxv))
+
+
+def replay_length(m, fname, width, maxv):
+    from . import native
+    v = int(m.get("n") or 0) & ((1 << 64) - 1)
+    nat = native.Native("core")
+    got = nat.ask(f"wlen {'int' if width == 4 else 'short'} {v}")
+    nat.close()
+    want = f"OK {(v).to_bytes(width, 'big').hex()}" if v <= maxv else "ERR -"
+    return native.record("C09", fname, {"length": v, "native": got, "expected": want}, got != want)
 
 
 # ------------------------------------------------------------------ native replay (real scylla-cql code, concrete values from the model)
